@@ -14,7 +14,8 @@ class CommonSubexpressionEliminationPass(BlockPass):
             if isinstance(i, ir.Binop):
                 k = (i.a, i.operation, i.b, i.ty)
             elif isinstance(i, ir.Const):
-                k = (i.value, i.ty)
+                # Use repr, since 0.0 == -0.0, but they are different values
+                k = (repr(i.value), i.ty)
             else:  # pragma: no cover
                 # This branch is actually covered, but is optimized by
                 # the python peep-hole optimizer!
